@@ -82,7 +82,7 @@ Definition max_nxt (s : st) (l : list st) : nat := fold_left (fun m x => Nat.max
 (* findall collects one instance of the template per answer.  The variables created while an answer was
    computed (cells >= lo = the counter at the call) are different objects for different answers, although
    the model reuses cell numbers in different branches of the search; the collected instances therefore
-   get these cells moved to pairwise disjoint fresh ranges [base_j, base_j + (nxt x_j - lo)). *)
+   get these cells moved to pairwise disjoint fresh ranges [base_j, base_j + (nxt x_j - lo)), base_1 = lo. *)
 Fixpoint shift_term (lo d : nat) (t : term) : term :=
   match t with
   | TVar v => if Nat.leb lo v then TVar (v + d) else t
@@ -129,7 +129,7 @@ Definition builtin (name : str) (args : list term) (s : st) : option (list st * 
     | [t; g; l] =>
         Some (let '(xs, e) := call_goal g [] s in
               if e then ([], true) else
-              let '(es, b) := collect (nxt s) (max_nxt s xs) t xs in
+              let '(es, b) := collect (nxt s) (nxt s) t xs in
               unify_st {| sto := sto s; nxt := b |} l (mk_list es))
     | _ => None end
   else None.
